@@ -682,6 +682,10 @@ Definition showb (b : bool) : string := if b then "T" else "F".
 
 
 def codes(text):
+	"""Coq term (list of bytes) of a text: a string literal where the text has only tab / CR / LF / printable / UTF-8 bytes
+	(Coq keeps them verbatim; a quote is doubled), else the list of numbers."""
+	if all(ord(c) in (9, 10, 13) or ord(c) >= 32 for c in text) and '\x7f' not in text:
+		return '(of_string "' + text.replace('"', '""') + '")'
 	return '[' + '; '.join(str(b) for b in text.encode('utf8')) + ']%Z'
 
 
